@@ -208,14 +208,14 @@ func bigString(n int) string { return strings.Repeat("k", n) }
 // Universe builds the list of cases for the tier.
 func Universe(quick bool) []Case {
 	var vals []ref.Val
-	n := 4
+	n, permK := 4, 4
 	if !quick {
-		n = 5
+		n, permK = 6, 5
 	}
 	vals = append(vals, ref.Trees(n, ref.LeavesSmall())...)
 	vals = append(vals, ref.Sweep(append(append(ref.ScalarsFull(), ref.UintsBig()...), ref.FloatsNonFinite()...))...)
 	vals = append(vals, ref.Link("")) // undefined CID: outside the quantifier, must not panic
-	vals = append(vals, PermutedMaps(ref.ComparatorKeys, 4)...)
+	vals = append(vals, PermutedMaps(ref.ComparatorKeys, permK)...)
 	// nested: a permuted map inside a permuted map
 	nestKeys := []string{"a", "b", "aa", "B", ""}
 	inner := PermutedMaps(nestKeys, 3)
@@ -257,12 +257,14 @@ func Universe(quick bool) []Case {
 			}
 		}
 	}
+	// a CID of 65535 bytes: the byte string that carries it is the first to need a 4-byte length
+	cases = append(cases, Case{V: ref.Link(ref.MkIdentityCid(65529)), Impl: "basic-any", Big: true}, Case{V: ref.List(ref.Link(ref.MkIdentityCid(65528)), ref.Link(ref.MkIdentityCid(65530))), Impl: "basic-any", Big: true})
 	return cases
 }
 
 func Main(r *core.Run) {
 	cases := Universe(r.Quick())
-	r.Rule("every tree ≤4 (quick) / ≤5 (thorough) nodes over 13 leaves; every alphabet scalar at every position kind; every permutation of every key set ≤4 of a 10-key comparator-stress alphabet; permuted map nested in permuted map; every head boundary for ints and string/bytes/list/map lengths; × implementations {basicnode Any, basicnode kind prototypes, foreign refnode}. Non-trivial = value containing a map with ≥2 entries, or a scalar/length at a head boundary ≥24; distinct by (canonical value, insertion order, implementation).")
+	r.Rule("every tree ≤4 (quick) / ≤6 (thorough) nodes over 13 leaves; every alphabet scalar at every position kind; every permutation of every key set ≤4 (thorough: ≤5) of an 11-key comparator-stress alphabet; permuted map nested in permuted map; every head boundary for ints and string/bytes/list/map lengths; × implementations {basicnode Any, basicnode kind prototypes, foreign refnode}. Non-trivial = value containing a map with ≥2 entries, or a scalar/length at a head boundary ≥24; distinct by (canonical value, insertion order, implementation).")
 	r.Assume("reference canonical encoder mc/ref/refcbor.go (written from the DAG-CBOR spec statement in the property)")
 	core.ParallelFor(len(cases), func(i int) {
 		c := cases[i]
